@@ -275,8 +275,11 @@ class Decoder:
         obs = {"ACL": self._acl(node.acl if on else None, {k: self._opt(r, o, k) for k in ("ip_list", "wildcard_list", "port_list", "protocol_list")}, num_rules)}
         if num_ports:
             obs["PORTS"] = {}
+            # an explicit ``ports`` list names the observed ports slot by slot (surplus entries dropped, missing slots empty);
+            # without it the slots are ports 1..num_ports
+            listed = [pc["port_id"] for pc in r["ports"]][:num_ports] if r.get("ports") else list(range(1, num_ports + 1))
             for k in range(num_ports):
-                p = node.network_interface.get(k + 1) if on else None
+                p = node.network_interface.get(listed[k]) if on and k < len(listed) else None
                 obs["PORTS"][k + 1] = {"operating_status": 0 if p is None else (1 if p.enabled else 2)}
         if inc_users:
             obs["users"] = self._users(node) if on else {"local_login": 0, "remote_sessions": 0}
